@@ -379,17 +379,8 @@ func evaluate(c tcase) (got observed, tags []string, fails []core.Failure, err e
 			tags = append(tags, "invoke:defined-name")
 		}
 	}
-	ok := treeOk(irs, ierrs)
-	if !ok {
-		tags = append(tags, "tree:failure-possible-behind-subroute-with-errors")
-	}
 	if class, what := diffClass(got, want); class != "" {
-		if !ok && canon(got) == canon(codeEval(irs, hasErrs, ierrs, q).observed()) {
-			fails = append(fails, fail("subroute-errors-catch-failure-behind-subroute",
-				"an error raised BEHIND a subroute was diverted to that subroute's error routes and the rest of the chain ran again: "+what))
-		} else {
-			fails = append(fails, fail(class, what))
-		}
+		fails = append(fails, fail(class, what))
 	}
 
 	// ---- oracle 1b: "with the original URI restored" also means the request line: whenever no
@@ -397,7 +388,7 @@ func evaluate(c tcase) (got observed, tags []string, fails []core.Failure, err e
 	// routes) must see a RequestURI that agrees with the URL. (Subroute.ServeHTTP resumes with a
 	// shallow copy of the request whose RequestURI can be stale on the unchanged tree — that
 	// region is left out here and reported, not asserted.)
-	if !tset["subroute-errors-run"] && ok {
+	if !tset["subroute-errors-run"] {
 		for _, e := range got.events {
 			if e.uri != "" {
 				fails = append(fails, fail("rules:request-uri-seen",
@@ -414,7 +405,7 @@ func evaluate(c tcase) (got observed, tags []string, fails []core.Failure, err e
 		fails = append(fails, fail("state-carried-between-requests",
 			fmt.Sprintf("the same request served twice by one server: first %s, then (after one other request) %s", canon(seq[0]), canon(seq[2]))))
 	}
-	if wantO, _ := specEval(irs, hasErrs, ierrs, other); ok && canon(seq[1]) != canon(wantO.observed()) {
+	if wantO, _ := specEval(irs, hasErrs, ierrs, other); canon(seq[1]) != canon(wantO.observed()) {
 		fails = append(fails, fail("rules:second-request",
 			fmt.Sprintf("request %d,%d,%d,%d served after the case's request on the same server: %s, the routing rules prescribe %s",
 				other.method, other.host, other.path, other.hdr, canon(seq[1]), canon(wantO.observed()))))
